@@ -15,6 +15,8 @@ import (
 // C04 — encodings are canonical SEC1, representation independent, and round-trip through Decode.
 
 type c04Case struct {
+	// Conc != 0: a concurrent batch (8 goroutines on objects they own) derived from this seed; other fields unused.
+	Conc uint64 `json:"concurrent_seed,omitempty"`
 	E   mon.ElemCase `json:"elem"`
 	Via string       `json:"via,omitempty"` // how the element was produced: "" = materialised, or an operation
 	// Move: the object first holds Move.From and is serialised through every view, is then driven to Move.To by one
@@ -43,6 +45,8 @@ func init() {
 }
 
 func c04Generate(c *mon.Ctx) {
+	concBatches(c, c.N(6, 300), func(seed uint64) any { return &c04Case{Conc: seed} })
+
 	pool := gen.NewPool(c.SharedRng("pool"), 16)
 
 	for _, pv := range pool.All {
@@ -96,6 +100,11 @@ func c04Generate(c *mon.Ctx) {
 
 func c04Run(c *mon.Ctx, csAny any) {
 	cs := csAny.(*c04Case)
+
+	if cs.Conc != 0 {
+		c04RunConc(c, cs.Conc)
+		return
+	}
 	if cs.Move != nil {
 		// the element under test is the moved object; E mirrors it for the bookkeeping below
 		cs.E = mon.ElemCase{P: cs.Move.To, R: mon.ReprCase{Kind: "moved:" + cs.Move.Via, L: "1"}}
